@@ -197,7 +197,10 @@ def run(model, col, tier):
     rets17 = [unparse(r.value) for r in ast.walk(ld) if isinstance(r, ast.Return) and r.value is not None]
     col.check(len(loaded_names) == 1 and rets17 and set(rets17) <= loaded_names, "R17.2", f"{IR}::FilesystemModuleLoader.Load result", "returns the loaded Module", None, IR, ld)
     nslr = model.file("nslr.py")
-    t = unparse(nslr.tree)
+    from ..sem import expand_module_helpers as _xmh172
+
+    t = unparse(_xmh172(model, "nslr.py", model.func("nslr.py", "run")))  # module-level helpers of the runner read in place
+    t = _re17.sub(r"\b(loader|module|linker)__\w+", r"\1", t)  # (locals of an inlined helper carry its name as a suffix)
     col.check("loader = LinearIR.FilesystemModuleLoader()" in t and "module = loader.Load(args.MODULE)" in t and "linker.AddModule(module)" in t, "R17.2", "nslr.py::run loads through the module loader",
               "the runner loads the file through FilesystemModuleLoader and links it", "the runner does not load the module through FilesystemModuleLoader", "nslr.py", nslr.tree)
     # ---------------- R17.3 ------------------------------------------------------
